@@ -1,3 +1,4 @@
+from formulae.expr import Grouping
 from formulae.terms import Variable, Call, Term, Intercept, NegatedIntercept, Response
 from formulae.terms.call_resolver import CallResolver
 
@@ -21,6 +22,13 @@ class Resolver:
     def visitBinaryExpr(self, expr):  # pylint: disable=too-many-return-statements
         otype = expr.operator.kind
         if otype == "TILDE":
+            # '~' separates the response from the rest of the formula. Anywhere else, for example in
+            # 'x + (a ~ b)', its left-hand side would be silently dropped.
+            root = self.expr
+            while isinstance(root, Grouping):
+                root = root.expression
+            if expr is not root:
+                raise ResolverError("'~' can only be used once, between the response and the terms")
             return Response(expr.left.accept(self)) + expr.right.accept(self)
         if otype == "PLUS":
             return expr.left.accept(self) + expr.right.accept(self)
